@@ -44,6 +44,7 @@ package federation
 
 // The result list has one slot per representation; groups are joined: one Done per spawned group.
 //@ family fedentities [C20,C05]
+//@   requires ec != nil
 //@   gosafe
 //@   goensures calls(Done) == 1 && calls(resolveEntityGroup) == 1
 //@   at `ec.resolveEntityGroup(ctx, typeName, reps, list)` requires len(arg3) == len(representations)
@@ -56,6 +57,7 @@ package federation
 //@   pure
 //@   ensures calls(isMulti) == 0
 //@ family fedgroup [C20,C05,C04]
+//@   requires ec != nil
 //@   noescape
 //@   gosafe
 //@   ghost added = 0
@@ -68,17 +70,30 @@ package federation
 //@   goensures calls(Error) <= 1
 
 // resolveEntity / resolveManyEntities run on spawned goroutines: they do their own panic handling.
-//@ family fedentity [C20,C04]
+// C10: the representation is client input - no implicit panic site of gqlgen's own (failed type assertion, index, nil
+// dereference) in the entity resolvers and the helpers they call (D34: nested @requires selections were read with
+// unchecked assertions); user resolvers may panic, which is contained (noescape).
+//@ family fedentity [C20,C04,C10]
+//@   requires ec != nil
+//@   userdata entity
 //@   noescape
+//@   safe
 //@   ensures panicked ==> calls(Recover) == 1
 // C20 "missing keys ... element i is the entity resolved from representation i or null with an error": a batch
 // resolver is only handed representations that went through the resolver lookup themselves, without error and with
 // the same result as the rest of the batch (D20: several @key directives; D33: a representation without its key was
 // resolved from an empty key). The partition loop looks at every representation, the batch is narrowed to the
 // survivors before anything is unmarshalled from it.
-//@ family fedmany [C20,C04]
+//@ family fedmany [C20,C04,C10]
 //@   replay fedMissingKey.go.tmpl
+//@   replay fedRequiresShape.go.tmpl for nopanic
+//@   requires ec != nil
+//@   userdata entity
+// (the indexes were produced by buildRepresentationGroups from positions of the representation list, which is as long
+// as the result list: proved there, assumed here)
+//@   at `assign list[*]` assume 0 <= idx && idx < len(list)
 //@   noescape
+//@   safe
 //@   ensures panicked ==> calls(Recover) == 1
 //@   at `assign list[*]` requires idx == reps[i].index && len(typedReps) == len(reps)
 //@   ghost narrowed = false
@@ -93,9 +108,19 @@ package federation
 //@   at! `assign reps` ghost narrowed = true
 //@   callsite FindMany*: requires narrowed
 
+// representationField(rep, path...): the value at the path, nil when a level is missing or not an object; for any
+// representation and path it neither panics nor modifies anything.
+//@ family fedrepfield [C20,C10]
+//@   nopanic
+//@   modifies nothing
+// (every type assertion in it is of the checked, two-value form and a missing map key reads as nil: the nopanic
+// obligations are decided at generation time; the loop bound keeps the unit from being vacuous)
+//@   loop 1: invariant 0 <= idx1 && idx1 <= len(path)
+
 // A resolver is selected only if not ALL of its key fields are null: the flag can only stay true, never become
 // true again after a non-null key field was seen.
-//@ family fedresolvername [C20]
+//@ family fedresolvername [C20,C10]
+//@   safe
 //@   ghost an = true
 //@   at `assign allNull` requires rhs0 ==> allNull
 //@   at `assign allNull` ghost an = rhs0
